@@ -46,7 +46,11 @@ type Spec struct {
 	// RealBinaries: import paths (package main) built from an UNINSTRUMENTED
 	// copy of the tree under test before instrumentation; the harness gets
 	// -arg realbin.<base>=<path>.
+	PlainHarness bool
 	RealBinaries map[string]string // name -> "module dir relative to repo root|package path relative to module"
+	// PlainHarness: also build the harness against an UNINSTRUMENTED copy of
+	// the tree (real map iteration order, real runtime); the harness gets
+	// -arg plainbin=<path>.
 	// TestPkgs are packages of the tree under test whose own tests are run
 	// against the instrumented copy before the workers start (transparency
 	// self-test of the instrumenter).
@@ -324,6 +328,13 @@ func Check(spec *Spec, o Options) int {
 	realArgs, err := sc.BuildReal(spec.RealBinaries)
 	if err != nil {
 		return trouble("build failed (the tree under test does not compile):\n%v", err)
+	}
+	if spec.PlainHarness {
+		pa, err := sc.BuildPlain(spec.Harness)
+		if err != nil {
+			return trouble("build failed (the tree under test or the harness does not compile):\n%v", err)
+		}
+		realArgs = append(realArgs, pa...)
 	}
 	if spec.Instrument != nil {
 		if err := spec.Instrument(sc); err != nil {
@@ -628,6 +639,14 @@ func Replay(spec *Spec, path string, o Options) int {
 		fmt.Fprintf(o.Stdout, "TROUBLE build failed: %v\n", err)
 		return ExitTrouble
 	}
+	if spec.PlainHarness {
+		pa, err := sc.BuildPlain(spec.Harness)
+		if err != nil {
+			fmt.Fprintf(o.Stdout, "TROUBLE build failed: %v\n", err)
+			return ExitTrouble
+		}
+		realArgs = append(realArgs, pa...)
+	}
 	if spec.Instrument != nil {
 		if err := spec.Instrument(sc); err != nil {
 			fmt.Fprintf(o.Stdout, "TROUBLE instrumentation failed: %v\n", err)
@@ -892,6 +911,37 @@ func SelfTestOnly(spec *Spec, o Options, runs int64) int {
 	}
 	fmt.Fprintf(o.Stdout, "SELFTEST %s determinism ok: %d runs x 6 process configurations (GOMAXPROCS 1/4/16, 1-3 shards) gave identical per-run digests (%.1fs)\n", spec.ID, runs, time.Since(t0).Seconds())
 	return ExitOK
+}
+
+// BuildPlain builds the harness against an uninstrumented copy of the tree
+// (call it before instrumentation).
+func (sc *Scratch) BuildPlain(harness string) ([]string, error) {
+	plainRepo := filepath.Join(sc.Dir, "repo-plain")
+	plainRT := filepath.Join(sc.Dir, "rt-plain")
+	if err := copyTree(sc.Repo, plainRepo, nil, nil); err != nil {
+		return nil, err
+	}
+	if err := copyTree(sc.RT, plainRT, nil, nil); err != nil {
+		return nil, err
+	}
+	mod, err := os.ReadFile(filepath.Join(plainRT, "go.mod"))
+	if err != nil {
+		return nil, err
+	}
+	m := strings.ReplaceAll(string(mod), "=> ../repo", "=> ../repo-plain")
+	if err := os.WriteFile(filepath.Join(plainRT, "go.mod"), []byte(m), 0o644); err != nil {
+		return nil, err
+	}
+	out := filepath.Join(sc.Bin, harness+"-plain")
+	cmd := exec.Command("go", "build", "-trimpath", "-o", out, "./harness/"+harness)
+	cmd.Dir = plainRT
+	cmd.Env = sc.Env
+	var buf bytes.Buffer
+	cmd.Stdout, cmd.Stderr = &buf, &buf
+	if err := cmd.Run(); err != nil {
+		return nil, fmt.Errorf("go build (uninstrumented) ./harness/%s: %v\n%s", harness, err, buf.String())
+	}
+	return []string{"-arg", "plainbin=" + out}, nil
 }
 
 // BuildReal builds the given main packages from the scratch copy as it is
